@@ -228,7 +228,7 @@ Section MakeRep.
 Variable b : board.
 Variable m : N.
 Hypothesis HR : Rep b.
-Hypothesis HV : valid (abs b) = true.
+Hypothesis HV : valid_core (abs b) = true.
 Hypothesis HL : legal_spec (abs b) m = true.
 
 Let from := mv_from m.
@@ -331,7 +331,6 @@ Proof.
   assert (He : is_en_passant b m = false).
   { unfold is_en_passant. fold from. rewrite Hp. change (King =? Pawn) with false. apply andb_false_r. }
   (* the rook stands on rf, rt is empty, neither is from / to *)
-  destruct (valid_parts _ HV) as [_ _].
   unfold king_part in Hk. fold from to in Hk. cbn [turn abs] in Hk. fold me in Hk.
   assert (RK : cell b rf = Some (me, Rook) /\ rf <> from /\ rf <> to /\ rt <> from /\ rt <> to /\ rf <> rt).
   { apply andb_true_iff in Hk. destruct Hk as [_ Hk].
@@ -497,13 +496,13 @@ Qed.
 
 (* chains and the UCI list with the representation invariant discharged *)
 Theorem chain_proof' z : zob_ok z -> valid_step_statement ->
-  forall ms b, Rep b -> valid (abs b) = true -> (0 <= fifty b)%Z -> (fifty b + Z.of_nat (length ms) < 32768)%Z ->
+  forall ms b, Rep b -> valid_core (abs b) = true -> (0 <= fifty b)%Z -> (fifty b + Z.of_nat (length ms) < 32768)%Z ->
   legal_chain (abs b) ms = true ->
-  abs (play z b ms) = play_spec (abs b) ms /\ Rep (play z b ms) /\ valid (abs (play z b ms)) = true.
+  abs (play z b ms) = play_spec (abs b) ms /\ Rep (play z b ms) /\ valid_core (abs (play z b ms)) = true.
 Proof. intros Hz VS. exact (chain_proof z VS (make_Rep_proof z Hz)). Qed.
 
 Theorem uci_legal_proof' z : zob_ok z -> valid_step_statement ->
-  forall toks b, Rep b -> valid (abs b) = true -> (0 <= fifty b)%Z ->
+  forall toks b, Rep b -> valid_core (abs b) = true -> (0 <= fifty b)%Z ->
   (fifty b + Z.of_nat (length (ApplyMoves.accepted_moves z b toks)) < 32768)%Z ->
   legal_chain (abs b) (ApplyMoves.accepted_moves z b toks) = true ->
   abs (ApplyMoves.apply_moves z b toks) = play_spec (abs b) (ApplyMoves.accepted_moves z b toks).
